@@ -33,7 +33,7 @@ def run_one(job):
     res = _run_one(job)
     drv = res.get("drv") or {}
     no_verdict = job[0].get("model") and not drv.get("validate_ok") and "diverge" in drv and drv["diverge"].get("why") == "driver produced no verdict"
-    if res["status"] == "TIMEOUT" or no_verdict:
+    if (res["status"] == "TIMEOUT" and "TIMEOUT" not in job[0].get("ok_status", ())) or no_verdict:
         res2 = _run_one(job)
         res2["retried"] = res["status"] if res["status"] == "TIMEOUT" else "no-verdict"
         return res2
